@@ -657,6 +657,294 @@ example : ((getVhost regDemo.tab.R (s "c.example.com") (s "/") []).map (·.paylo
 end C06
 end Frp
 
+/-! ## Traffic interleaved with registration changes
+
+  The property quantifies over "all register / unregister / re-register histories INTERLEAVED WITH TRAFFIC".
+  The code keeps no memory of earlier lookups: `HTTPReverseProxy.getVhost` (pkg/util/vhost/http.go) and
+  `Muxer.getListener` (pkg/util/vhost/vhost.go) read the route index and nothing else, and a request writes
+  nothing a later lookup reads.  So a request is an event that leaves the state alone, and its answer is a
+  function of the table at that moment — whatever the same (host, path, user) was resolved to earlier, however
+  often, and whichever kind of change (plain proxy, group member joining or leaving, first or last member of a
+  group) happened in between. -/
+namespace Frp
+namespace C06
+open Str Router VhostReg
+
+/-- a request as the lookup sees it -/
+structure Query where
+  host : Str
+  path : Str
+  user : Str
+deriving DecidableEq, Repr
+
+/-- one event at the server: a registration change (`Run` / `Close` of a proxy) or a request -/
+inductive TOp
+  | chg (o : ROp)
+  | req (q : Query)
+
+/-- the lookup of the code: the walk over the route table as it is NOW; nothing else is read -/
+def lookup (S : St) (q : Query) : Option Route := getVhost S.tab.R q.host q.path q.user
+
+/-- one event: a change moves the state and answers nothing, a request is answered and moves nothing -/
+def tstep (sh : Str) (S : St) : TOp → St × List (Option Route)
+  | .chg o => (rapply sh S o, [])
+  | .req q => (S, [lookup S q])
+
+/-- the server run over a history with traffic: final state and the answers given, in order -/
+def trun (sh : Str) (S : St) : List TOp → St × List (Option Route)
+  | [] => (S, [])
+  | op :: ops => ((trun sh (tstep sh S op).1 ops).1, (tstep sh S op).2 ++ (trun sh (tstep sh S op).1 ops).2)
+
+/-- the registration changes of a history, traffic erased -/
+def changes : List TOp → List ROp
+  | [] => []
+  | .chg o :: ops => o :: changes ops
+  | .req _ :: ops => changes ops
+
+/-- every request of a history together with everything that happened before it -/
+def reqPoints : List TOp → List (List TOp × Query)
+  | [] => []
+  | .chg o :: ops => (reqPoints ops).map (fun e => (.chg o :: e.1, e.2))
+  | .req q :: ops => ([], q) :: (reqPoints ops).map (fun e => (.req q :: e.1, e.2))
+
+/-- the state reached from `S` by the registration changes alone -/
+def rfrom (sh : Str) (S : St) (ops : List ROp) : St := ops.foldl (rapply sh) S
+
+/-- **Traffic leaves no trace**: the state after a history with requests is the state after the same
+    history with the requests erased. -/
+theorem traffic_leaves_no_trace (sh : Str) (ops : List TOp) :
+    ∀ S : St, (trun sh S ops).1 = rfrom sh S (changes ops) := by
+  induction ops with
+  | nil => intro S; rfl
+  | cons op ops ih =>
+    intro S
+    cases op with
+    | chg o => simp only [trun, tstep, changes, rfrom, List.foldl_cons]; exact ih _
+    | req q => simp only [trun, tstep, changes]; exact ih _
+
+/-- **The lookup depends on the current table only.**  For every history of registration changes with
+    requests interleaved anywhere (the same request any number of times, before and after any change), the
+    answers given are, request by request, the lookup in the table produced by the registration changes that
+    precede the request — the requests that precede it (what they asked, what they were answered) do not
+    enter. -/
+theorem lookup_depends_only_on_table (sh : Str) (ops : List TOp) :
+    ∀ S : St, (trun sh S ops).2 = (reqPoints ops).map (fun e => lookup (rfrom sh S (changes e.1)) e.2) := by
+  induction ops with
+  | nil => intro S; rfl
+  | cons op ops ih =>
+    intro S
+    cases op with
+    | chg o =>
+      simp only [trun, tstep, reqPoints, List.nil_append, List.map_map]
+      rw [ih]
+      apply List.map_congr_left
+      intro e _
+      simp only [Function.comp, changes, rfrom, List.foldl_cons]
+    | req q =>
+      simp only [trun, tstep, reqPoints, List.map_cons, List.map_map, List.singleton_append]
+      rw [ih]
+      congr 1
+
+/-- two histories with the same registration changes — their traffic may differ in any way — answer a
+    further request alike; and so do any two states whose route tables are equal -/
+theorem same_changes_same_answer (sh : Str) (S : St) (h1 h2 : List TOp) (q : Query)
+    (h : changes h1 = changes h2) : lookup (trun sh S h1).1 q = lookup (trun sh S h2).1 q := by
+  rw [traffic_leaves_no_trace, traffic_leaves_no_trace, h]
+
+theorem same_table_same_answer (S S' : St) (q : Query) (h : S.tab.R = S'.tab.R) : lookup S q = lookup S' q := by
+  unfold lookup; rw [h]
+
+/-- `a` is a correct answer to `q` in state `S`: the C06 predicate with respect to the routes the proxies
+    live in `S` stand for, for every proxy instance the chosen route hands the request to -/
+def Good (S : St) (q : Query) (a : Option Route) : Prop :=
+  match a with
+  | none => HoldsOn (liveRoutes S.hs) q.host q.path q.user none
+  | some r => (∃ id, Serves S.tab r.payload id) ∧
+      ∀ id, Serves S.tab r.payload id → HoldsOn (liveRoutes S.hs) q.host q.path q.user (some id)
+
+/-- **Most specific live route for every request of every history with traffic.**  The i-th answer given
+    during any history (from the empty server) belongs to the i-th request and is correct with respect to the
+    proxies live after exactly the registration changes that precede that request: a route closed before it
+    is not used (from the next request on), a route registered before it — by a plain proxy or as a group's
+    first member — is, however the same request was answered earlier. -/
+theorem traffic_most_specific (sh : Str) (ops : List TOp) (i : Nat) (a : Option Route)
+    (h : (trun sh St.empty ops).2[i]? = some a) :
+    ∃ e, (reqPoints ops)[i]? = some e ∧ Good (rrun sh (changes e.1)) e.2 a := by
+  rw [lookup_depends_only_on_table, List.getElem?_map] at h
+  cases he : (reqPoints ops)[i]? with
+  | none => rw [he] at h; cases h
+  | some e =>
+    rw [he] at h
+    refine ⟨e, rfl, ?_⟩
+    have ha : a = lookup (rrun sh (changes e.1)) e.2 := (Option.some.inj h).symm
+    subst ha
+    have hI := reg_inv_reachable sh (changes e.1)
+    have := reg_lookup_most_specific hI e.2.host e.2.path e.2.user
+    unfold Good lookup
+    exact this
+
+/-! ### non-vacuity: the same request before and after a plain proxy, a group's first member, a second
+       member, a member leaving, the last member leaving -/
+
+def qDemo : Query := { host := s "c.example.com", path := s "/api/users", user := [] }
+
+def trafficDemo : List TOp :=
+  [ .chg (.run 1 (cfgDemo "wild" ["*.example.com"] "" [] "" "" "")), .req qDemo
+  , .chg (.run 2 (cfgDemo "g1" ["c.example.com"] "" ["/api"] "" "grp" "k")), .req qDemo, .req qDemo
+  , .chg (.run 3 (cfgDemo "g2" ["c.example.com"] "" ["/api"] "" "grp" "k")), .req qDemo
+  , .chg (.close 2), .req qDemo
+  , .chg (.close 3), .req qDemo
+  , .chg (.close 1), .req qDemo ]
+
+example : (reqPoints trafficDemo).length = 7 := by decide +kernel
+example : ((trun shDemo St.empty trafficDemo).2.map (fun a => a.map (·.payload))) =
+    [some 2, some 1, some 1, some 1, some 1, some 2, none] := by decide +kernel
+
+end C06
+end Frp
+
+/-! ## Credentials of the route a request is forwarded along (http load-balancing groups)
+
+  Not a clause of C06 (which proxy gets the request) but of C07 ("no request is forwarded to the protected
+  backend unless it presents exactly that user name and password") and C13 ("joins only with the same public
+  endpoint parameters"); it lives here because the `vreg` engine is where real http groups meet the real
+  `HTTPReverseProxy`.  On this tree the clause is FALSE for groups whose members are configured with different
+  credentials (`httpGroup_creds_witness`); it holds when all joins carry the same credentials
+  (`httpGroup_creds_partial`) and, for all histories, once joins compare them (`httpGroup_creds_checked_sound`,
+  switch `VhostReg.groupChecksCreds`, repair hooks/C06-fix-httpgroup-credentials.patch). -/
+namespace Frp
+namespace C06
+open Str VhostReg
+
+/-- whoever is handed a request was configured with exactly the credentials it carries, or with none -/
+def CredsSound (g : Option CGroup) : Prop :=
+  ∀ u p id, id ∈ cserve g u p → ∀ m ∈ cmembers g, m.1 = id → checkAuth m.2 u p = true
+
+/-- every member is configured with the credentials of the group's route -/
+def Uniform : Option CGroup → Prop
+  | none => True
+  | some g => ∀ m ∈ g.members, m.2 = g.route
+
+theorem uniform_sound {g : Option CGroup} (h : Uniform g) : CredsSound g := by
+  intro u p id hid m hm _
+  cases g with
+  | none => cases hm
+  | some g =>
+    simp only [cserve] at hid
+    split at hid
+    · rename_i hc
+      rw [h m hm]; exact hc
+    · cases hid
+
+/-- one join / leave keeps the group uniform if the join compares credentials or happens to carry the route's -/
+theorem uniform_step {chk : Bool} {g : Option CGroup} (h : Uniform g) (op : GOp)
+    (hop : chk = true ∨ ∀ id c, op = .join id c → ∀ g', g = some g' → c = g'.route) :
+    Uniform (cstep chk g op) := by
+  cases g with
+  | none =>
+    cases op with
+    | join id c => simp [cstep, Uniform]
+    | leave id => simp [cstep, Uniform]
+  | some g =>
+    cases op with
+    | join id c =>
+      simp only [cstep]
+      split
+      · exact h
+      · rename_i hne
+        intro m hm
+        rcases List.mem_append.mp hm with hm | hm
+        · exact h m hm
+        · simp only [List.mem_singleton] at hm
+          subst hm
+          rcases hop with hchk | hsame
+          · apply Decidable.byContradiction
+            intro hc
+            exact hne ⟨hchk, fun e => hc e.symm⟩
+          · exact hsame id c rfl g rfl
+    | leave id =>
+      simp only [cstep]
+      split
+      · trivial
+      · intro m hm
+        exact h m (List.mem_filter.mp hm).1
+
+/-- **With the comparison in place** every group reachable by any history of joins and leaves is uniform … -/
+theorem httpGroup_checked_uniform (ops : List GOp) : Uniform (crun true ops) := by
+  unfold crun
+  suffices h : ∀ g, Uniform g → Uniform (ops.foldl (cstep true) g) from h none trivial
+  induction ops with
+  | nil => intro g h; exact h
+  | cons op ops ih => intro g h; exact ih _ (uniform_step h op (Or.inl rfl))
+
+/-- … hence nobody is handed a request that does not carry his own credentials (repaired code, all histories) -/
+theorem httpGroup_creds_checked_sound (ops : List GOp) : CredsSound (crun true ops) :=
+  uniform_sound (httpGroup_checked_uniform ops)
+
+/-- all joins of a history carry the credentials `c` -/
+def JoinsWith (c : Creds) (ops : List GOp) : Prop := ∀ id c', GOp.join id c' ∈ ops → c' = c
+
+/-- **The code as it is**: sound for the histories in which all members are configured alike -/
+theorem httpGroup_creds_partial (c : Creds) (ops : List GOp) (hj : JoinsWith c ops) :
+    CredsSound (crun false ops) := by
+  apply uniform_sound
+  unfold crun
+  suffices h : ∀ g, (Uniform g ∧ ∀ g', g = some g' → g'.route = c) → JoinsWith c ops →
+      Uniform (ops.foldl (cstep false) g) from h none ⟨trivial, fun _ e => by cases e⟩ hj
+  clear hj
+  induction ops with
+  | nil => intro g h _; exact h.1
+  | cons op ops ih =>
+    intro g h hj
+    have hj' : JoinsWith c ops := fun id c' hm => hj id c' (List.mem_cons_of_mem _ hm)
+    refine ih _ ⟨uniform_step h.1 op (Or.inr ?_), ?_⟩ hj'
+    · intro id c' e g' eg
+      subst e
+      rw [h.2 g' eg]
+      exact hj id c' List.mem_cons_self
+    · intro g' eg
+      cases g with
+      | none =>
+        cases op with
+        | join id c' =>
+          simp only [cstep, Option.some.injEq] at eg
+          subst eg
+          exact hj id c' List.mem_cons_self
+        | leave id => simp [cstep] at eg
+      | some g0 =>
+        have h0 := h.2 g0 rfl
+        cases op with
+        | join id c' =>
+          simp only [cstep] at eg
+          split at eg
+          · cases eg; exact h0
+          · cases eg; exact h0
+        | leave id =>
+          simp only [cstep] at eg
+          split at eg
+          · cases eg
+          · cases eg; exact h0
+
+/-- **Witness (the code as it is)**: an unprotected proxy opens the group, a protected one joins; a request
+    without credentials passes `CheckAuth` (the route is the first member's) and may be handed to the protected
+    member. -/
+def credsWitness : List GOp := [.join 1 ([], []), .join 2 (s "u", s "pw")]
+
+theorem httpGroup_creds_witness : ¬ CredsSound (crun false credsWitness) := by
+  intro h
+  have := h [] [] 2 (by decide +kernel) (2, (s "u", s "pw")) (by decide +kernel) rfl
+  revert this
+  decide +kernel
+
+/-- the same history is refused at the join by the repaired code -/
+example : crun true credsWitness = some { route := ([], []), members := [(1, ([], []))] } := by decide +kernel
+
+/-- executable form for the driver: proxy `id`, configured with `c`, was handed a request carrying (u, p) -/
+def credsOk (c : Creds) (u p : Str) : Bool := checkAuth c u p
+
+end C06
+end Frp
+
 /-! ## Host spellings: letter case, port suffix and trailing dot are ignored
        (pkg/util/http/http.go `CanonicalHost`, model Frp/Model/Host.lean) -/
 namespace Frp
